@@ -65,7 +65,7 @@ def gen_market(rnd, ndays=22, warm=3, n_stocks=None, with_future=None, opts=None
         ratio = rnd.choice([1.5, 2.0, 1.2, 1.15, 0.5]) if split_i else None
         divs = []
         if rnd.random() < p_div and len(cal) - 4 > warm + 1:
-            for _ in range(1 if rnd.random() < 0.8 else 2):
+            for _ in range(1 if rnd.random() < 1 - opts.get("p_two_div", 0.2) else 2):
                 bi = rnd.randrange(warm + 1, len(cal) - 4)
                 divs.append((bi, bi + 1, bi + 1 + rnd.randrange(0, 3), round(rnd.uniform(0.5, 5), 2)))   # book, ex, payable idx, cash per 10
             if len(divs) == 2 and not (divs[0][2] < divs[1][0] or divs[1][2] < divs[0][0]) and not opts.get("overlap_div"):
@@ -136,6 +136,11 @@ def gen_market(rnd, ndays=22, warm=3, n_stocks=None, with_future=None, opts=None
         for dv in kept_divs:
             if dv[0] in bars and dv[1] in bars:
                 dv_rows.append((d8(cal[dv[0] - 1]), d8(cal[dv[0]]), d8(cal[dv[1]]), d8(cal[dv[2]]), dv[3], 10))
+        if opts.get("early_announce") and len(dv_rows) >= 2:
+            # the table is stored in record-date order; announcement dates need not ascend: the LATER dividend was announced first
+            dv_rows.sort(key=lambda r: r[2])
+            first_ann = datetime.datetime.strptime(str(dv_rows[0][0]), "%Y%m%d").date()
+            dv_rows[-1] = (d8(first_ann - datetime.timedelta(days=9)),) + dv_rows[-1][1:]
         if dv_rows:
             S["div"][oid] = sorted(dv_rows, key=lambda r: r[2])
         S["fac"][oid] = fac
